@@ -246,6 +246,255 @@ example : let s := exec (init ⟨5, [1]⟩ fun w => if w = 0 then failedInit 1 e
       if w = 1 then [.tryLock, .readToc, .work 7, .writeToc, .release] else []) [0, 0, 0, 0, 1, 1, 1, 1, 1]
     s.holder = none ∧ (s.ws 1).failed = false ∧ s.toc = ⟨6, [1, 7]⟩ := by decide
 
+/-! ### Lifetimes by the way they end: commit, cancel, failing with-block, failing commit
+
+`commitLife` / `cancelLife` / `withBlock` (`WM/Model/FSLock.lean`) are the scripts of
+`SegmentWriter.commit`, `SegmentWriter.cancel`, and `IndexWriter.__exit__` around them, including the
+commit of the multi-process writer that finds a dead sub-writer (`MpWriter._subtasks_failed`). -/
+
+theorem tailOK_body (ops : List Op) (n : Nat) (r : List Step) (h : tailOK r = true) :
+    tailOK (lifeBody ops n ++ r) = true := by
+  unfold lifeBody
+  induction ops with
+  | cons o os ih => simpa [tailOK] using ih
+  | nil =>
+    induction n with
+    | zero => simpa using h
+    | succ n ih => simpa [List.replicate_succ, tailOK] using ih
+
+theorem postOK_ios (m : Nat) : postOK (List.replicate m .io ++ [.release]) = true := by
+  induction m with
+  | zero => rfl
+  | succ m ih => simpa [List.replicate_succ, postOK] using ih
+
+/-- **C04.commit_life_disciplined / cancel_life_disciplined.**  "The lock is released by commit() and
+    cancel()": both lifetimes, with any buffered work and any number of storage operations before and
+    after, are `LockDiscipline` scripts (so every theorem above covers them). -/
+theorem commit_life_disciplined (ops : List Op) (n m : Nat) :
+    LockDiscipline (commitLife ops n m) = true := by
+  simp only [commitLife, LockDiscipline]
+  apply tailOK_body
+  simp only [tailOK]
+  exact postOK_ios m
+
+theorem cancel_life_disciplined (ops : List Op) (n m : Nat) :
+    LockDiscipline (cancelLife ops n m) = true := by
+  simp only [cancelLife, LockDiscipline]
+  exact tailOK_body ops n _ (tailOK_ios m)
+
+example : commitLife [7, 8] 1 2 =
+    [.tryLock, .readToc, .work 7, .work 8, .io, .writeToc, .io, .io, .release] := by decide
+example : cancelLife [7] 2 0 = [.tryLock, .readToc, .work 7, .io, .io, .release] := by decide
+
+/-- **C04.with_block_disciplined.**  "… and a failing with-block, so writers never dead-lock the
+    index": whatever the block does, whether it raises, and whether the commit run by `__exit__` fails
+    on a dead sub-writer process, the lifetime of `with ix.writer() as w:` — as the code is, i.e. with
+    `_subtasks_failed` cancelling — is a `LockDiscipline` script. -/
+theorem with_block_disciplined (ops : List Op) (n m : Nat) (bodyRaises commitFails : Bool) :
+    LockDiscipline (withBlock ops n m bodyRaises commitFails true) = true := by
+  unfold withBlock
+  cases bodyRaises <;> cases commitFails <;>
+    simp [commit_life_disciplined, cancel_life_disciplined]
+
+example : withBlock [7] 1 1 false true true = [.tryLock, .readToc, .work 7, .io, .io, .release] := by decide
+
+/-- **C04.with_block_releases.**  The composition with the machine: among any disciplined writers and
+    after any schedule, a writer living in a with-block (any body, any of the three endings) that is
+    let run until its script is used up does not hold the lock and is not the recorded holder; and
+    once every script has run out, the next writer that tries gets the lock. -/
+theorem with_block_releases (t0 : Toc) (scripts : Nat → List Step) (w : Nat)
+    (ops : List Op) (n m : Nat) (bodyRaises commitFails : Bool)
+    (hw : scripts w = withBlock ops n m bodyRaises commitFails true)
+    (hd : ∀ v, v ≠ w → LockDiscipline (scripts v) = true ∨ scripts v = []) (sched : List Nat) :
+    let s := exec (init t0 scripts) sched
+    let s' := exec s (List.replicate (s.ws w).script.length w)
+    (s'.ws w).script = [] ∧ (s'.ws w).holds = false ∧ s'.holder ≠ some w ∧
+    ((∀ v, (s'.ws v).script = []) → s'.holder = none) := by
+  intro s s'
+  have hd' : Disciplined scripts := by
+    intro v
+    by_cases hv : v = w
+    · left; rw [hv, hw]; exact with_block_disciplined ops n m bodyRaises commitFails
+    · exact hd v hv
+  obtain ⟨h1, h2, h3⟩ := finished_writer_not_holder t0 scripts hd' w sched
+  refine ⟨h1, h2, h3, ?_⟩
+  have e : s' = exec (init t0 scripts) (sched ++ List.replicate (s.ws w).script.length w) := by
+    simp [s, s', exec, List.foldl_append]
+  rw [e]
+  exact (lock_released t0 scripts hd' _).2.1
+
+/-- one step: the commit list stays, or the stepping writer's next step was `writeToc` and it is appended;
+    the records of the other writers are untouched -/
+theorem stepW_commits (t : State) (u : Nat) :
+    ((stepW t u).commits = t.commits ∨
+      (∃ r, (t.ws u).script = .writeToc :: r) ∧ (stepW t u).commits = t.commits ++ [u]) ∧
+    ∀ v, v ≠ u → (stepW t u).ws v = t.ws v := by
+  cases hsc : (t.ws u).script with
+  | nil => simp [stepW, hsc]
+  | cons st r =>
+    cases st with
+    | tryLock => cases hh : t.holder <;> simp [stepW, hsc, hh, setW] <;> intro v hv <;> simp [hv]
+    | readToc => simp [stepW, hsc, setW]; intro v hv; simp [hv]
+    | work op => simp [stepW, hsc, setW]; intro v hv; simp [hv]
+    | io => simp [stepW, hsc, setW]; intro v hv; simp [hv]
+    | writeToc => cases hb : (t.ws u).base <;> simp [stepW, hsc, hb, setW] <;> intro v hv <;> simp [hv]
+    | release => cases hh : (t.ws u).holds <;> simp [stepW, hsc, hh, setW] <;> intro v hv <;> simp [hv]
+
+/-- **C04.never_commits.**  "Nothing is committed by a writer that cancels": a writer whose (remaining)
+    script contains no `writeToc` — `cancelLife`: cancel(), the failing with-block, the multi-process
+    commit that found a dead sub-writer — is never added to the commit list, under any schedule of
+    all writers; with `no_lost_update` / `generation`: its buffered changes are in no TOC and it does not
+    advance the generation. -/
+theorem never_commits (s : State) (w : Nat) (hw : Step.writeToc ∉ (s.ws w).script) (sched : List Nat) :
+    let s' := exec s sched
+    Step.writeToc ∉ (s'.ws w).script ∧ (w ∈ s'.commits → w ∈ s.commits) := by
+  have key : ∀ (sched : List Nat) (t : State), Step.writeToc ∉ (t.ws w).script →
+      (w ∈ t.commits → w ∈ s.commits) →
+      Step.writeToc ∉ ((exec t sched).ws w).script ∧ (w ∈ (exec t sched).commits → w ∈ s.commits) := by
+    intro sched
+    induction sched with
+    | nil => intro t h1 h2; exact ⟨h1, h2⟩
+    | cons u us ih =>
+      intro t h1 h2
+      show Step.writeToc ∉ ((exec (stepW t u) us).ws w).script ∧ _
+      obtain ⟨hc, ho⟩ := stepW_commits t u
+      apply ih
+      · by_cases hu : w = u
+        · subst hu
+          rcases stepW_script t w with h | h
+          · rw [h]; intro hm; exact h1 (List.mem_of_mem_tail hm)
+          · rw [h]; simp
+        · rw [ho w hu]; exact h1
+      · intro hm
+        rcases hc with e | ⟨⟨r, hr⟩, e⟩
+        · rw [e] at hm; exact h2 hm
+        · rw [e] at hm
+          rcases List.mem_append.1 hm with h | h
+          · exact h2 h
+          · have hu : w = u := by simpa using h
+            subst hu
+            rw [hr] at h1
+            exact absurd (List.mem_cons_self) h1
+  exact key sched s hw id
+
+theorem cancelLife_no_writeToc (ops : List Op) (n m : Nat) : Step.writeToc ∉ cancelLife ops n m := by
+  simp [cancelLife, lifeBody]
+
+/-- a failing with-block (either way) among any writers, any schedule: never in the commit list -/
+theorem failing_with_block_never_commits (t0 : Toc) (scripts : Nat → List Step) (w : Nat)
+    (ops : List Op) (n m : Nat) (bodyRaises commitFails : Bool) (hf : bodyRaises = true ∨ commitFails = true)
+    (hw : scripts w = withBlock ops n m bodyRaises commitFails true) (sched : List Nat) :
+    w ∉ (exec (init t0 scripts) sched).commits := by
+  have h0 : Step.writeToc ∉ ((init t0 scripts).ws w).script := by
+    show Step.writeToc ∉ scripts w
+    rw [hw]
+    unfold withBlock
+    rcases hf with h | h <;> cases bodyRaises <;> cases commitFails <;>
+      simp_all [cancelLife_no_writeToc]
+  intro hm
+  have := (never_commits (init t0 scripts) w h0 sched).2 hm
+  simp [init] at this
+
+example : (exec (init ⟨5, [1]⟩ fun w => if w = 0 then withBlock [7] 1 1 false true true else
+      if w = 1 then commitLife [8] 1 0 else []) [0, 0, 0, 0, 0, 0, 1, 1, 1, 1, 1, 1]).commits = [1] := by decide
+
+/-- **C04.leak_deadlocks.**  Why the cancel inside `_subtasks_failed` is needed: a writer that holds the
+    lock and whose remaining script contains no release (a `commit()` that raised out of `__exit__`
+    with nobody cancelling) keeps the lock for ever — after *every* schedule of *all* writers it is
+    still the holder, and every other writer that then tries gets `LockError` (`failed`). -/
+theorem leak_deadlocks (s : State) (w : Nat) (hheld : s.holder = some w)
+    (hnorel : Step.release ∉ (s.ws w).script)
+    (hothers : ∀ v, v ≠ w → (s.ws v).holds = false) (sched : List Nat) :
+    let s' := exec s sched
+    s'.holder = some w ∧
+    ∀ v r, v ≠ w → (s'.ws v).script = .tryLock :: r →
+      ((stepW s' v).ws v).failed = true ∧ (stepW s' v).holder = some w := by
+  have key : ∀ (sched : List Nat) (t : State), t.holder = some w → Step.release ∉ (t.ws w).script →
+      (∀ v, v ≠ w → (t.ws v).holds = false) →
+      (exec t sched).holder = some w := by
+    intro sched
+    induction sched with
+    | nil => intro t h _ _; exact h
+    | cons u us ih =>
+      intro t h1 h2 h3
+      show (exec (stepW t u) us).holder = some w
+      have step : (stepW t u).holder = some w ∧ Step.release ∉ ((stepW t u).ws w).script ∧
+          (∀ v, v ≠ w → ((stepW t u).ws v).holds = false) := by
+        cases hsc : (t.ws u).script with
+        | nil =>
+          have e : stepW t u = t := by simp [stepW, hsc]
+          rw [e]; exact ⟨h1, h2, h3⟩
+        | cons st r =>
+          have hr : u = w → Step.release ∉ r ∧ st ≠ Step.release := by
+            intro e; rw [e] at hsc; rw [hsc] at h2
+            simp only [List.mem_cons, not_or] at h2
+            exact ⟨h2.2, fun e' => h2.1 e'.symm⟩
+          have hset : ∀ (x : WState), (u = w → Step.release ∉ x.script) →
+              (u ≠ w → x.holds = false) →
+              (setW t u x).holder = some w ∧ Step.release ∉ ((setW t u x).ws w).script ∧
+              (∀ v, v ≠ w → ((setW t u x).ws v).holds = false) := by
+            intro x hx1 hx2
+            refine ⟨h1, ?_, ?_⟩
+            · simp only [setW]
+              by_cases e : w = u
+              · simp [e]; exact hx1 e.symm
+              · simp [e]; exact h2
+            · intro v hv
+              simp only [setW]
+              by_cases e : v = u
+              · simp [e]; exact hx2 (by rw [← e]; exact hv)
+              · simp [e]; exact h3 v hv
+          cases st with
+          | tryLock =>
+            have e : stepW t u = setW t u { t.ws u with script := [], failed := true } := by
+              simp [stepW, hsc, h1]
+            rw [e]; exact hset _ (fun _ => by simp) (fun e => h3 u e)
+          | readToc =>
+            have e : stepW t u = setW t u { t.ws u with script := r, base := some t.toc } := by
+              simp [stepW, hsc]
+            rw [e]; exact hset _ (fun e => (hr e).1) (fun e => h3 u e)
+          | work op =>
+            have e : stepW t u = setW t u { t.ws u with script := r, pending := (t.ws u).pending ++ [op] } := by
+              simp [stepW, hsc]
+            rw [e]; exact hset _ (fun e => (hr e).1) (fun e => h3 u e)
+          | io =>
+            have e : stepW t u = setW t u { t.ws u with script := r } := by simp [stepW, hsc]
+            rw [e]; exact hset _ (fun e => (hr e).1) (fun e => h3 u e)
+          | writeToc =>
+            cases hb : (t.ws u).base with
+            | none =>
+              have e : stepW t u = setW t u { t.ws u with script := r } := by simp [stepW, hsc, hb]
+              rw [e]; exact hset _ (fun e => (hr e).1) (fun e => h3 u e)
+            | some b =>
+              have e : stepW t u = { setW t u { t.ws u with script := r, committed := true } with
+                  toc := ⟨b.gen + 1, b.ops ++ (t.ws u).pending⟩, commits := t.commits ++ [u] } := by
+                simp [stepW, hsc, hb]
+              have := hset { t.ws u with script := r, committed := true } (fun e => (hr e).1) (fun e => h3 u e)
+              rw [e]; exact ⟨this.1, this.2.1, this.2.2⟩
+          | release =>
+            have hu : u ≠ w := fun e => (hr e).2 rfl
+            have e : stepW t u = setW t u { t.ws u with script := r } := by
+              simp [stepW, hsc, h3 u hu]
+            rw [e]; exact hset _ (fun e => absurd e hu) (fun _ => h3 u hu)
+      exact ih _ step.1 step.2.1 step.2.2
+  intro s'
+  have hh := key sched s hheld hnorel hothers
+  refine ⟨hh, ?_⟩
+  intro v r hv hs
+  have hh' : s'.holder = some w := hh
+  simp [stepW, hs, hh', setW]
+
+/-- the with-block of a multi-process writer whose `_subtasks_failed` does *not* cancel: not a
+    disciplined script, and the index is dead-locked (writer 1 gets `LockError`, nothing published) -/
+example : LockDiscipline (withBlock [7] 1 1 false true false) = false := by decide
+example : let s := exec (init ⟨5, [1]⟩ fun w => if w = 0 then withBlock [7] 1 1 false true false else
+      if w = 1 then commitLife [8] 1 0 else []) [0, 0, 0, 0, 1, 1, 1]
+    s.holder = some 0 ∧ (s.ws 0).script = [] ∧ (s.ws 1).failed = true ∧ s.toc = ⟨5, [1]⟩ := by decide
+/-- as the code is: writer 0's failed commit publishes nothing, writer 1 commits on top -/
+example : let s := exec (init ⟨5, [1]⟩ fun w => if w = 0 then withBlock [7] 1 1 false true true else
+      if w = 1 then commitLife [8] 1 0 else []) [0, 0, 0, 0, 0, 0, 1, 1, 1, 1, 1, 1]
+    s.holder = none ∧ (s.ws 1).failed = false ∧ s.toc = ⟨6, [1, 8]⟩ := by decide
+
 /-! ### A concrete instance -/
 namespace Example
 
